@@ -62,6 +62,20 @@ def main(ctx):
         if not kinds.get(k):
             raise vlib.CheckError("model never exercised a '%s' loop transition (vacuous bounds)" % k)
 
+    # 2a': announcers pre-empted at the cap evaluation (after their atomic ticket): exhaustive small model, export of
+    # every resume keyed by (#holds, #resumes, asked/queued)
+    rc = vlib.tlc(ctx, "MC_Tracker.tla", "MC_Tracker_cap.cfg", workers=12, timeout=1800, extra=["-seed", str(ctx.seed)])
+    if not rc.ok:
+        raise vlib.CheckError("design-level Tracker cap model violates %s (model-only, not a verdict):\n%s"
+                              % (rc.invariant, (rc.error or "")[:1500]))
+    capscheds, capkinds = pick_schedules(sorted(rc.exports, key=lambda e: json.dumps(e, sort_keys=True)), rnd, 40 if quick else 600)
+    ctx.log("cap model: %d generated / %d distinct; exported %s; replaying %d" % (rc.generated, rc.distinct, capkinds, len(capscheds)))
+    for k in ("hold3resume3queue", "hold2resume2ask", "hold3resume2ask"):
+        if not capkinds.get(k):
+            raise vlib.CheckError("cap model never exercised '%s' (vacuous bounds)" % k)
+    scheds = scheds + capscheds
+    kinds.update(capkinds)
+
     # 2b: random walks of a larger instance
     nwalk = 150 if quick else 3000
     rs = vlib.tlc(ctx, "MC_Tracker.tla", "MC_Tracker_sim.cfg", workers=1, timeout=1800,
@@ -122,14 +136,15 @@ def main(ctx):
         selftest_reject(ctx, "Trace_Tracker.tla", "Trace_Tracker.cfg", trace, mutate, n_lines=3000)
 
     cov = {
-        "states": r.distinct, "transitions": r.generated,
+        "states": r.distinct + rc.distinct, "transitions": r.generated + rc.generated,
         "traces_validated_against_impl": len(scheds) + len(walks),
         "samples": [scheds[0]["sched"][:20], walks[0]["sched"][:45]],
         "exported_by_kind": kinds,
         "drift_steps": info.get("drift"),
         "model_cfg": cfg,
         "exhaustive": False,
-        "rule": "bounded Tracker model explored exhaustively (2 peers x 2 hashes, delay 2, horizon 4, <= 6 announcements, one pre-empted announcer); "
+        "rule": "bounded Tracker model explored exhaustively (2 peers x 2 hashes, delay 2, horizon 4, <= 6 announcements, one pre-empted announcer) + cap model "
+                "(4 peers x 1 hash, <= 3 announcers pre-empted between their atomic ticket and the cap comparison, horizon 2); "
                 "%d schedules per kind of loop transition + %d random walks (5 peers x 3 hashes, depth 45) replayed exactly "
                 "on the real tracker under a virtual clock" % (per_kind, len(walks)),
     }
